@@ -5,6 +5,7 @@ import (
 	"math"
 	"math/rand"
 	"os"
+	"os/user"
 	"path/filepath"
 	"strconv"
 
@@ -58,6 +59,18 @@ func newC08Rig(ctx *Ctx, kind string) *c08Rig {
 		rig.path = filepath.Join(dir, "temp")
 		d.Mem[rig.path] = "0"
 		s, _ := sensors.NewSensor(configuration.SensorConfig{ID: uniqueId("c08s"), File: &configuration.FileSensorConfig{Path: rig.path}})
+		rig.sensor = s
+	case "file-home":
+		// the documented "~" form of a file sensor path; the file lives in the virtual driver only (nothing is
+		// created in the home directory)
+		home := "/root"
+		if u, err := user.Current(); err == nil {
+			home = u.HomeDir
+		}
+		rel := uniqueId(".fan2go-verif-c08") + "/temp"
+		rig.path = filepath.Join(home, rel)
+		d.Mem[rig.path] = "0"
+		s, _ := sensors.NewSensor(configuration.SensorConfig{ID: uniqueId("c08s"), File: &configuration.FileSensorConfig{Path: "~/" + rel}})
 		rig.sensor = s
 	case "cmd":
 		rig.path = filepath.Join(dir, "out")
@@ -238,17 +251,17 @@ func init() {
 	register("C08", func(ctx *Ctx) {
 		r := ctx.Rng
 		rigs := map[string]*c08Rig{}
-		for _, k := range []string{"hwmon", "file", "cmd"} {
+		for _, k := range []string{"hwmon", "file", "file-home", "cmd"} {
 			rigs[k] = newC08Rig(ctx, k)
 			defer rigs[k].close()
 		}
 		// exhaustive short sequences: every placement of every fault kind
-		maxLen := map[string]int{"hwmon": 4, "file": 4, "cmd": 3}
+		maxLen := map[string]int{"hwmon": 4, "file": 4, "file-home": 3, "cmd": 3}
 		if ctx.Thorough() {
-			maxLen = map[string]int{"hwmon": 6, "file": 6, "cmd": 4}
+			maxLen = map[string]int{"hwmon": 6, "file": 6, "file-home": 5, "cmd": 4}
 		}
 		idx := 0
-		for _, sk := range []string{"hwmon", "file", "cmd"} {
+		for _, sk := range []string{"hwmon", "file", "file-home", "cmd"} {
 			kinds := c08Kinds(sk)[1:] // one "ok" entry
 			for length := 1; length <= maxLen[sk]; length++ {
 				total := 1
@@ -281,7 +294,7 @@ func init() {
 		// long random sequences
 		nr := ctx.N(12000, 300000)
 		for i := 0; i < nr; i++ {
-			sk := pick(r, "hwmon", "file", "file")
+			sk := pick(r, "hwmon", "file", "file", "file-home")
 			c := &c08Case{Sensor: sk, Window: pick(r, 1, 2, 3, 5, 10, 10, 50, 100, 1+r.Intn(100)), Init: c08Val(r, sk)}
 			kinds := c08Kinds(sk)
 			cur := c08Val(r, sk)
